@@ -272,7 +272,7 @@ EXPECT = {'MLoad': ('RLoad',), 'MDistance': ('RDistance',), 'MUnknownAct': ('AFo
           'MDupUn': ('AJobDuplicated',), 'MDropUn': ('AJobLost',), 'MCopyStop': ('AJobDuplicated',),
           'MMoveStop': ('AJobDuplicated',), 'MBoth': ('AJobDuplicated',), 'MStatTotal': ('RTotal',),
           'MLimitDistance': ('FMaxDistance',), 'MLimitDuration': ('FMaxDuration',), 'MLimitSize': ('FTourSize',),
-          'MCapacity': ('FInfeasible',), 'MArrival': ('RArrival', 'RNoReplay'),
+          'MCapacity': ('FCapacity',), 'MArrival': ('RArrival', 'RNoReplay'),
           'MDupAct': ('AJobIncomplete', 'AJobOrder')}
 
 
@@ -379,7 +379,7 @@ def sol_numbers(s, ids):
                     (st['load'] or [0])[0], st['distance'], len(st['activities'])]
             for a in st['activities']:
                 kind = e2e.KIND.get(a.get('type'), 99)
-                out += [ids.job(a['jobId']) if kind in (0, 1, 2, 3) else -1, kind]
+                out += [ids.job(a['jobId']) if kind in (0, 1, 2, 3) else e2e.RELOAD_JOB if kind == 13 else -1, kind]
                 out += _oz(None if a.get('location') is None else a['location']['index'])
                 out += [0] if a.get('time') is None else [1, e2e.secs(a['time']['start']), e2e.secs(a['time']['end'])]
                 out += _oz(None if a.get('jobTag') is None else ids.tag(a['jobTag']))
@@ -456,6 +456,13 @@ def _reject_structure(c, msg):
         for t in sol['tours']:
             if mt and t['vehicleId'] == mt.group(1) and any(_is_job(a) for a in t['stops'][0]['activities']):
                 return ['/job-at-departure-stop']
+        for t in sol['tours']:
+            if mt and t['vehicleId'] == mt.group(1):
+                # capacity.rs::is_reload_stop recognises a reload only as the FIRST activity of its stop
+                if any(any(a.get('type') == 'reload' for a in st['activities'][1:]) for st in t['stops']):
+                    return ['/reload-not-first-activity-of-its-stop']
+                if any(a.get('type') == 'reload' for st in t['stops'] for a in st['activities']):
+                    return ['/tour-with-reload']
         return ['']
     if msg.startswith('cannot match activities to jobs'):
         cats = set()
